@@ -194,6 +194,56 @@ func main() {
 	}
 	add("cron/cron.go Cron.start (timer case): `ready := "+src(readyExpr)+"`",
 		"def readyTest (now next : Nat) : Bool := "+translate(readyExpr, map[string]string{"now": "now", "job.Next": "next"}))
+	// where the timer case re-arms the timer: inside `if ready` (after the pop), or after it in the enclosing
+	// `if 0 < len(c.Timeline)` block (then also when the head was not ready)
+	var lenIf *ast.IfStmt
+	ast.Inspect(start, func(n ast.Node) bool {
+		if x, ok := n.(*ast.IfStmt); ok && (src(x.Cond) == "0 < len(c.Timeline)" || src(x.Cond) == "len(c.Timeline) > 0") {
+			for _, st := range x.Body.List {
+				if st == ast.Stmt(readyIf) {
+					lenIf = x
+				}
+			}
+		}
+		return true
+	})
+	if lenIf == nil {
+		die("Cron.start: `if ready` is not a statement of an `if 0 < len(c.Timeline)` block")
+	}
+	rearmInside := false
+	for _, st := range readyIf.Body.List {
+		if src(st) == "c.resetTimer()" {
+			rearmInside = true
+		}
+	}
+	rearmAfter, seenReady := false, false
+	for _, st := range lenIf.Body.List {
+		if st == ast.Stmt(readyIf) {
+			seenReady = true
+		} else if seenReady && src(st) == "c.resetTimer()" {
+			rearmAfter = true
+		}
+	}
+	add("cron/cron.go Cron.start (timer case): `c.resetTimer()` after the pop of a ready job (inside `if ready`, or after it)",
+		"def popRearms : Bool := "+b(rearmInside || rearmAfter))
+	add("cron/cron.go Cron.start (timer case): `c.resetTimer()` follows `if ready {…}` in the `if 0 < len(c.Timeline)` block: the timer is re-armed also when the head was not ready",
+		"def tickRearmsAlways : Bool := "+b(rearmAfter))
+	// the pop registers a recurring job in c.running (under the same lock hold as the pop, before the goroutine starts)
+	tracks := false
+	popSeen := false
+	for _, st := range readyIf.Body.List {
+		if src(st) == "c.Timeline = c.Timeline[1:]" {
+			popSeen = true
+		}
+		if x, ok := st.(*ast.IfStmt); ok && popSeen && x.Else == nil && (src(x.Cond) == "!job.Once()" || src(x.Cond) == "job.Expression != nil") {
+			tracks = len(x.Body.List) == 1 && src(x.Body.List[0]) == "c.running = append(c.running, job)"
+		}
+		if _, ok := st.(*ast.GoStmt); ok && !tracks {
+			break
+		}
+	}
+	add("cron/cron.go Cron.start (timer case): a popped recurring job is appended to `c.running` (`if !job.Once() { c.running = append(c.running, job) }`) before its goroutine starts",
+		"def popTracksRunning : Bool := "+b(tracks))
 
 	// ---- Timeline.Search
 	search := method(cr, "Timeline", "Search")
@@ -261,6 +311,17 @@ func main() {
 	})
 	add("cron/cron.go Cron.rem: the matching entry is cut out of `c.Timeline` (copy + reslice) and the scan stops",
 		"def remErases : Bool := "+b(remOK))
+	remRun := false
+	for _, st := range rem.Body.List {
+		if r, ok := st.(*ast.RangeStmt); ok && src(r.X) == "c.running" && src(r.Key) == "at" && src(r.Value) == "job" && len(r.Body.List) == 1 {
+			if x, ok := r.Body.List[0].(*ast.IfStmt); ok && (src(x.Cond) == "job.Id == id" || src(x.Cond) == "id == job.Id") {
+				remRun = containsStmt(x.Body, "copy(c.running[at:], c.running[at+1:])") &&
+					containsStmt(x.Body, "c.running = c.running[0 : len(c.running)-1]") && containsStmt(x.Body, "found = true") && containsStmt(x.Body, "break")
+			}
+		}
+	}
+	add("cron/cron.go Cron.rem: the entry of `c.running` with that id is cut out as well (unconditionally, `found = true`): a recurring job whose Fn is executing is cancelled",
+		"def remCancelsRunning : Bool := "+b(remRun))
 	pubRem := method(cr, "Cron", "Rem")
 	if callPos(pubRem, "c.rem(ctx, id)") == token.NoPos {
 		die("Cron.Rem does not call c.rem")
@@ -284,8 +345,8 @@ func main() {
 	})
 	inOnce, inRec := false, false
 	if onceIf != nil {
-		thenHas := callPos(onceIf.Body, "c.schedule(ctx, job,") != token.NoPos
-		elseHas := onceIf.Else != nil && callPos(onceIf.Else, "c.schedule(ctx, job,") != token.NoPos
+		thenHas := callPos(onceIf.Body, "c.schedule(ctx, job,") != token.NoPos || callPos(onceIf.Body, "c.reschedule(ctx, job)") != token.NoPos
+		elseHas := onceIf.Else != nil && (callPos(onceIf.Else, "c.schedule(ctx, job,") != token.NoPos || callPos(onceIf.Else, "c.reschedule(ctx, job)") != token.NoPos)
 		if src(onceIf.Cond) == "once" {
 			inOnce, inRec = thenHas, elseHas
 		} else {
@@ -294,14 +355,14 @@ func main() {
 		// a schedule call outside the if would apply to both
 		total := 0
 		ast.Inspect(run, func(n ast.Node) bool {
-			if c, ok := n.(*ast.CallExpr); ok && strings.HasPrefix(src(c), "c.schedule(") {
+			if c, ok := n.(*ast.CallExpr); ok && (strings.HasPrefix(src(c), "c.schedule(") || strings.HasPrefix(src(c), "c.reschedule(")) {
 				total++
 			}
 			return true
 		})
 		inside := 0
 		ast.Inspect(onceIf, func(n ast.Node) bool {
-			if c, ok := n.(*ast.CallExpr); ok && strings.HasPrefix(src(c), "c.schedule(") {
+			if c, ok := n.(*ast.CallExpr); ok && (strings.HasPrefix(src(c), "c.schedule(") || strings.HasPrefix(src(c), "c.reschedule(")) {
 				inside++
 			}
 			return true
@@ -310,11 +371,57 @@ func main() {
 			inOnce, inRec = true, true
 		}
 	} else {
-		all := callPos(run, "c.schedule(ctx, job,") != token.NoPos
+		all := callPos(run, "c.schedule(ctx, job,") != token.NoPos || callPos(run, "c.reschedule(ctx, job)") != token.NoPos
 		inOnce, inRec = all, all
 	}
-	add("cron/cron.go Cron.run: `c.schedule` is called when `once` is true", "def rescheduleOnce : Bool := "+b(inOnce))
-	add("cron/cron.go Cron.run: `c.schedule` is called when `once` is false", "def rescheduleRecurring : Bool := "+b(inRec))
+	add("cron/cron.go Cron.run: `c.schedule` / `c.reschedule` is called when `once` is true", "def rescheduleOnce : Bool := "+b(inOnce))
+	add("cron/cron.go Cron.run: `c.schedule` / `c.reschedule` is called when `once` is false", "def rescheduleRecurring : Bool := "+b(inRec))
+	// Cron.reschedule: the job is put back only if it is still in c.running (pointer comparison), under one hold of the lock
+	viaRunning := false
+	usesResched := callPos(run, "c.reschedule(ctx, job)") != token.NoPos
+	usesSched := callPos(run, "c.schedule(ctx, job,") != token.NoPos
+	if usesResched && usesSched {
+		die("Cron.run calls both c.schedule and c.reschedule")
+	}
+	if usesResched {
+		var rs *ast.FuncDecl
+		for _, d := range cr.Decls {
+			if fd, ok := d.(*ast.FuncDecl); ok && fd.Name.Name == "reschedule" && fd.Recv != nil {
+				rs = fd
+			}
+		}
+		if rs == nil {
+			die("Cron.run calls c.reschedule, which is not defined in cron.go")
+		}
+		inserts, inLoop, locked := 0, false, false
+		ast.Inspect(rs, func(n ast.Node) bool {
+			if c, ok := n.(*ast.CallExpr); ok && (strings.HasPrefix(src(c), "c.insert(") || strings.HasPrefix(src(c), "c.schedule(")) {
+				inserts++
+			}
+			return true
+		})
+		lockAt, unlockAt := callPos(rs, "c.Lock()"), callPos(rs, "c.Unlock()")
+		for _, st := range rs.Body.List {
+			if r, ok := st.(*ast.RangeStmt); ok && src(r.X) == "c.running" && src(r.Key) == "at" && len(r.Body.List) == 1 {
+				v := src(r.Value)
+				if x, ok := r.Body.List[0].(*ast.IfStmt); ok && x.Else == nil && (src(x.Cond) == v+" == job" || src(x.Cond) == "job == "+v) {
+					inLoop = containsStmt(x.Body, "copy(c.running[at:], c.running[at+1:])") &&
+						containsStmt(x.Body, "c.running = c.running[0 : len(c.running)-1]") &&
+						containsStmt(x.Body, "job.Next = next") && containsStmt(x.Body, "c.insert(ctx, job)") && containsStmt(x.Body, "break")
+					locked = lockAt != token.NoPos && unlockAt != token.NoPos && lockAt < r.Pos() && r.End() < unlockAt
+				}
+			}
+		}
+		if !containsStmt(rs, "next := job.Expression.Next(time.Now().UTC())") {
+			die("Cron.reschedule: `next := job.Expression.Next(time.Now().UTC())` not found")
+		}
+		viaRunning = inserts == 1 && inLoop && locked
+		if !viaRunning {
+			die("Cron.reschedule: unexpected shape (expected: one locked scan of c.running for the job itself that cuts it out and inserts it)")
+		}
+	}
+	add("cron/cron.go Cron.run re-schedules through `c.reschedule`, which re-inserts the job only if it is still in `c.running` (no rem, no capacity test)",
+		"def rescheduleViaRunning : Bool := "+b(viaRunning))
 
 	// ---- resume
 	resumeOK := false
@@ -353,6 +460,47 @@ func main() {
 	}
 	add("crolt/cron.go Cron.work: loop condition `"+src(dueExpr)+"` as a test on the comparison result",
 		"def dueCmp (c : Int) : Bool := "+translate(dueExpr, map[string]string{"bytes.Compare(k, max)": "c"}))
+
+	addm := method(cl, "Cron", "Add")
+	clearPos, updPos := token.NoPos, callPos(addm, "s.update(j)")
+	for _, st := range addm.Body.List {
+		if src(st) == `j.TId = ""` {
+			clearPos = st.Pos()
+		}
+	}
+	if updPos == token.NoPos {
+		die("crolt Cron.Add: no call of s.update(j)")
+	}
+	add("crolt/cron.go Cron.Add: `j.TId = \"\"` (top level of the function) before `s.update(j)`: the caller's TId is never used",
+		"def addClearsTid : Bool := "+b(clearPos != token.NoPos && clearPos < updPos))
+	jit := method(cl, "Cron", "Jitter")
+	setm := method(cl, "Cron", "set")
+	if !containsStmt(setm, "j.at = schedule.Next(time.Now().UTC()).Add(c.Jitter())") || !containsStmt(jit, "max := float64(c.MaxJitter)") || !containsStmt(jit, "return d") {
+		die("crolt Cron.set / Cron.Jitter: unexpected shape")
+	}
+	jitSub := ""
+	ast.Inspect(jit, func(n ast.Node) bool {
+		if a, ok := n.(*ast.AssignStmt); ok && len(a.Lhs) == 1 && src(a.Lhs[0]) == "d" && len(a.Rhs) == 1 {
+			switch src(a.Rhs[0]) {
+			case "time.Duration(rand.Float64()*max - max/2)":
+				jitSub = "max / 2"
+			case "time.Duration(rand.Float64() * max)":
+				jitSub = "0"
+			default:
+				die("crolt Cron.Jitter: cannot translate `d := %s`", src(a.Rhs[0]))
+			}
+		}
+		return true
+	})
+	if jitSub == "" {
+		die("crolt Cron.Jitter: assignment to d not found")
+	}
+	jitVar := "max"
+	if jitSub == "0" {
+		jitVar = "_max"
+	}
+	add("crolt/cron.go Cron.Jitter: the result is `rand.Float64()*max` (a value in [0, max)) minus this amount",
+		"def jitterSub ("+jitVar+" : Nat) : Nat := "+jitSub)
 
 	upd := method(cl, "Cron", "update")
 	updOK := false
